@@ -62,15 +62,9 @@ def buffer_test(n, bufvar):
 
 
 def guards_formula(cfg, node, atomize):
-    """conjunction of the (transitive) control-dependence conditions of node; unrecognised leaves
+    """exact path condition of node within the current loop iteration (see ex.PathCond); unrecognised leaves
     become opaque atoms"""
-    f = ex.TRUE
-    for (c, pol, _b) in cfg.guards_of(node):
-        g = ex.formula(c, lambda leaf: atomize(leaf) or ex.f_atom(('opaque', leaf.i)))
-        if g is None:
-            continue
-        f = ex.f_and(f, g if pol else ex.f_not(g))
-    return f
+    return ex.path_condition(cfg, node, atomize)
 
 
 def implies(f, g):
